@@ -22,14 +22,27 @@ Histories of operations on one real MarshalledMessageBody and one real MessageBo
   badtree   push_old_param(s) with Param trees no typed value can have: a struct without fields at any depth/position,
             a variant whose signature is not its value's type, arrays/dicts whose declared element types differ from the
             elements.  Expected: refused, no trace, no panic.
+  fds       descriptor-rich histories: values with UnixFd leaves (h, (hs), ah, a(hy), (hsh), v[h], a{sh}, the &dyn AsRawFd
+            flavour H ..) pushed one by one and through push_param2..5 / push_params / push_old_param(s) / push_variant;
+            failing calls in which a LIVE descriptor is attached before a later element fails (a taken descriptor, a bad
+            string / path / signature) while descriptors of earlier values are attached; reset, re-homing, parser walk.
+
+Descriptor identity: every `h` leaf the harness makes is a descriptor on a memfd of its own and carries a tag (its number
+among the `h` leaves of the history, live and taken alike, in token order); the body state lists the tags of get_fds() in
+order ("fds=0,2,3"), found again through fstat (st_dev, st_ino), which the dup() of marshalling preserves.  The model's body
+has a descriptor COUNT only, so the expected list is tracked by the check itself: a push that succeeds appends the tags of
+the live descriptor leaves of its values in order, a failing one leaves the list, reset empties it, re-homing keeps it.
+A decoded descriptor is printed by the harness as the tag of the file behind it and by the model as its index i in the
+descriptor list: the tag must be the i-th of the expected list.
 
 Observables compared with the model after EVERY operation (error variants collapsed to "failed"):
-  builder ops: result, signature, bytes, number of attached descriptors; validate() after every builder operation of the
+  builder ops: result, signature, bytes, number of attached descriptors (and, against the list the check tracks, WHICH
+               file sits at which index of get_fds()); validate() after every builder operation of the
                offset / long / corpus histories and once before the parser walk of the others;
   parser ops:  result, decoded value tokens (descriptor values masked, maps canonical), get_next_sig(), sigs_left(),
                and the two private cursors (buf_idx, sig_idx) read off the parser's derived Debug output.
 Independently of the model, on the implementation's own output: a failing push leaves (signature, bytes, descriptor
-count) as they were; reset leaves them empty; no operation panics; a failing get / getN / get_param leaves (next signature,
+count, descriptor identities in order) as they were; a successful one appends exactly its values' live descriptors; reset leaves them empty; no operation panics; a failing get / getN / get_param leaves (next signature,
 signatures left, buf_idx, sig_idx) as they were; a successful one moves sig_idx by exactly the signature characters of the
 types it returned and sigs_left by their number.  When model and implementation differ the property is evaluated on
 the implementation's output with the extracted SPECIFICATION (spec_enc through the driver's SE op): the bytes a successful
@@ -50,7 +63,7 @@ UNALIGNED_OFFSETS = True
 ALIGNED_OFFSET_BEYOND_BUFFER = False
 
 PARSER_OPS = ("PNEW", "PNEWX", "PGET", "PGETN", "PGETM", "PGETP")
-STATE_KEYS = ("sig", "buf", "nfds", "next", "left")
+STATE_KEYS = ("sig", "buf", "nfds", "fds", "next", "left")
 
 
 def parse_state(line):
@@ -257,6 +270,9 @@ class Gen:
         # the typed variant wrappers around Rust types at the limits of what a variant may carry (gen/catalogue.py marshal_only)
         self.var_limits = [t for t in wg.catalogue_marshal_only() if t.startswith("v[") and (len(t) > 200 or t.startswith("v[aaaaaaaa"))]
         self.mix_failable = [t for t in mix if wg.count_leaves(wg.parse_ext(t), "sogh") > 0]
+        # types with descriptor leaves
+        self.fd_mix = [t for t in mix if wg.count_leaves(wg.parse_ext(t), "h") > 0]
+        self.fd_cat = [t for t in cat if wg.count_leaves(wg.parse_ext(t), "h") > 0]
         # types whose decoding can fail after bytes were consumed
         self.rich = [t for t in mix if wg.count_leaves(wg.parse_ext(t), "sogb") > 0 or not t[0].isalpha() or t[0] in "av"]
 
@@ -876,6 +892,98 @@ class Gen:
                             ("r", [("r", [("r", [empty])])]), ("v", tree_sig(tree), ("r", [tree, ("v", "y", empty)]))])
         return " ".join(wg.print_tree(out, False)), kind
 
+    # ---- descriptor-rich histories
+    def fds(self):
+        """values with descriptor leaves; failing calls that attach a live descriptor before a later element fails, while
+        descriptors of earlier values are attached; returns (ops, shapes)"""
+        r = self.r
+        ops = ["BNEW " + r.choice(["le", "be"])]
+        items = []
+        shapes = []
+        pool = self.fd_mix * 2 + self.fd_cat
+
+        def single(ty, v):
+            """one value through one of the single-value entry points; returns (op, type the walk may ask for)"""
+            forms = ["BOLD"]
+            if ty in self.catset:
+                forms += ["BPUSH", "BPUSH", "BPUSHV"]
+            if ty in self.mixset:
+                forms += ["BPUSHM", "BPUSHM"]
+            f = r.choice(forms)
+            if f == "BOLD":
+                return "BOLD " + v, ty
+            if f == "BPUSHM":
+                return "BPUSHM 1 %s %s" % (ty, v), ty
+            if f == "BPUSHV":
+                vt = "v[%s]" % ty
+                return "BPUSHV %s %s" % (ty, v), (vt if (vt in self.catset or vt in self.mixset) else None)
+            return "BPUSH %s %s" % (ty, v), ty
+        first = True
+        for _ in range(r.randint(3, 9)):
+            k = 0.0 if first else r.random()
+            first = False
+            if k < 0.28:
+                # good values, at least one with a descriptor
+                n = r.choice([1, 1, 2, 3])
+                if n == 1:
+                    ty = r.choice(pool)
+                    op, wty = single(ty, self.value(ty)[0])
+                    ops.append(op)
+                    items.append(wty)
+                else:
+                    tys = [r.choice(self.mix) for _ in range(n)]
+                    tys[r.randrange(n)] = r.choice(self.fd_mix)
+                    if r.random() < 0.3:
+                        tys = [r.choice(self.fd_cat)] * n
+                    op, anybad = self.push_group(tys)
+                    ops.append(op)
+                    if not anybad:
+                        items += tys
+                shapes.append("good")
+            elif k < 0.62:
+                # a multi-push that attaches a live descriptor and then fails
+                if r.random() < 0.6:
+                    n = r.choice([2, 3, 4, 5])
+                    badpos = r.randint(1, n - 1)
+                    tys = [r.choice(self.mix) for _ in range(n)]
+                    tys[r.randrange(badpos)] = r.choice(self.fd_mix)
+                    tys[badpos] = r.choice(self.mix_failable if r.random() < 0.5 else self.fd_mix)
+                else:
+                    n = r.choice([2, 3, 4, 5, 6, 7])
+                    badpos = r.randint(1, n - 1)
+                    tys = [r.choice(self.fd_cat)] * n
+                op, anybad = self.push_group(tys, badpos)
+                ops.append(op)
+                if not anybad:
+                    items += tys
+                shapes.append("multi-fail" if anybad else "good")
+            elif k < 0.78:
+                # one value that fails at a late leaf (after a live descriptor of the same value, where the type allows it)
+                ty = r.choice([t for t in pool if wg.count_leaves(wg.parse_ext(t), "sogh") >= 2 or t[0] == "a"] or pool)
+                v, isbad = self.value(ty, bad=True)
+                for _ in range(3):
+                    if isbad and " h 0 " in " " + v + " ":
+                        break
+                    v, isbad = self.value(ty, bad=True)
+                op, wty = single(ty, v)
+                ops.append(op)
+                if not isbad:
+                    items.append(wty)
+                shapes.append("single-fail" if isbad else "good")
+            elif k < 0.86:
+                ops.append(self.failing(r.choice(["pushm", "olds", "pushn", "oldtree", "pushvi"])))
+                shapes.append("other-fail")
+            elif k < 0.93:
+                ops.append("BRESET")
+                items = []
+                shapes.append("reset")
+            else:
+                ops.append(r.choice(["BRECV", "BOFF %d" % self.an_offset()]))
+                shapes.append("rehome")
+        ops.append("PNEW")
+        ops += self.walk(items)
+        return ops, shapes
+
     def badtrees(self):
         r = self.r
         ops = ["BNEW " + r.choice(["le", "be"])]
@@ -994,6 +1102,9 @@ def check_history(ctx, h, hi, hm):
     evaluating the property on the implementation's own outputs)"""
     prev_state = None
     prev_p = None                 # (next, left, cur) of the implementation before this parser op
+    exp_fds = []                  # tags of the descriptors the body must hold, in order (tracked here: the model has a count only)
+    parser_fds = []               # the same list at the time the parser was made
+    next_tag = 0                  # the harness numbers the `h` leaves it reads since BNEW
     k = 0
     n = len(h)
     while k < n:
@@ -1022,14 +1133,48 @@ def check_history(ctx, h, hi, hm):
                 if opname != "BBEYOND" and prev_state is not None and res == "ok" and (st.get("sig"), st.get("buf"), st.get("nfds")) != prev_state:
                     return ("re-making the body at another offset changed it (harness)", k, "protocol")
             state = (st.get("sig"), st.get("buf"), st.get("nfds"))
+            # descriptor identities: the tags of this call's `h` leaves (None: a taken one), in token order
+            if opname == "BNEW":
+                next_tag = 0
+                exp_fds = []
+            leaf_tags = []
+            for live in _fd_leaves(op):
+                leaf_tags.append(str(next_tag) if live else None)
+                next_tag += 1
+            fds_before = list(exp_fds)
+            if opname == "BRESET":
+                exp_fds = []
+            elif res == "ok":
+                exp_fds = exp_fds + [t for t in leaf_tags if t is not None]
             if res == "panic":
                 return ("a builder operation panicked", k, False)
             if res not in ("ok", "err"):
                 return ("builder operation neither succeeded nor failed (%s)" % res, k, "protocol")
+            if "fds" not in st:
+                return ("the harness does not report descriptor identities", k, "protocol")
+            got_fds = [] if st["fds"] == "-" else st["fds"].split(",")
             if res == "err" and prev_state is not None and state != prev_state:
                 return ("a push that returned an error left a trace in the body", k, False)
-            if opname == "BRESET" and state != ("-", "-", "0"):
+            if opname == "BRESET" and (state != ("-", "-", "0") or got_fds):
                 return ("reset left something attached", k, False)
+            if res == "err" and fds_before and any(t is not None for t in leaf_tags):
+                ctx.count("failed-push-with-live-descriptor-while-descriptors-attached")
+            if got_fds != exp_fds:
+                if res == "err":
+                    return ("a push that returned an error changed WHICH descriptors the body holds: get_fds() had the files tagged [%s], now [%s] "
+                            "(tags number the descriptor leaves of the history; the bytes still refer to them by index)"
+                            % (",".join(fds_before), st["fds"]), k, False)
+                if " via=" in li:
+                    return ("re-making the body at another offset changed its descriptors (harness): [%s] -> [%s]" % (",".join(exp_fds), st["fds"]), k, "protocol")
+                if len(got_fds) != len(exp_fds) and st.get("nfds") == stm.get("nfds"):
+                    return ("the check's list of expected descriptors [%s] has another length than the model's count %s (op result %s)"
+                            % (",".join(exp_fds), stm.get("nfds"), res), k, "protocol")
+                if len(got_fds) == len(exp_fds):
+                    return ("after a successful %s get_fds() does not hold the previous descriptors followed by the pushed values' live descriptors "
+                            "in order: files tagged [%s], expected [%s]" % ("reset" if opname == "BRESET" else "push", st["fds"], ",".join(exp_fds)), k, False)
+                # another COUNT than the model's: reported by the comparison with the model below
+            if got_fds:
+                ctx.count("builder-op-with-descriptors-attached:" + res)
             if (res, state) != (resm, (stm.get("sig"), stm.get("buf"), stm.get("nfds"))):
                 # the model state is the specification's rendering of the committed items (theorem C15_builder);
                 # map iteration order can differ: only sizes are compared when a multi-entry map was pushed
@@ -1064,6 +1209,7 @@ def check_history(ctx, h, hi, hm):
             ctx.count("parser-over-body-at-offset:" + ("0" if " at=0" in li + " " or " at=" not in li else ">0"))
             if (st.get("next"), st.get("left"), cur_i) != (stm.get("next"), stm.get("left"), cur_m):
                 return ("new parser differs from the model", k, True)
+            parser_fds = list(exp_fds)
             prev_p = pstate
             k += step
             continue
@@ -1089,6 +1235,17 @@ def check_history(ctx, h, hi, hm):
         if (failed != failedm or (pstate[0], pstate[1]) != (stm.get("next"), stm.get("left")) or (cur_i is not None and cur_i != cur_m)
                 or (not failed and wg.canon(_fdnorm(val)) != wg.canon(_fdnorm(valm)))):
             return ("parser result differs from the model (type check, value or position)", k, True)
+        if not failed and " h " in " " + val:
+            # same value up to descriptors: the harness prints the tag of the file behind a decoded descriptor, the model its
+            # index in the descriptor list
+            tags, idxs = _fd_payloads(val), _fd_payloads(valm)
+            if len(tags) == len(idxs) and not _multi_entry(val):
+                for tg, ix in zip(tags, idxs):
+                    want_tag = parser_fds[int(ix)] if ix.isdigit() and int(ix) < len(parser_fds) else None
+                    ctx.count("decoded-descriptor-identity-checked")
+                    if want_tag is not None and tg != want_tag:
+                        return ("a decoded descriptor is not the file the value was pushed with: index %s of the descriptor list holds the file "
+                                "tagged %s, the parser returned the file tagged %s" % (ix, want_tag, tg), k, False)
         prev_p = pstate
         k += step
     return None
@@ -1100,6 +1257,32 @@ def _multi_entry(op):
         if t == "e" and i + 3 < len(toks) and toks[i + 3].isdigit() and int(toks[i + 3]) > 1:
             return True
     return False
+
+
+def _fd_leaves(op):
+    """the descriptor leaves of the values a builder op pushes, in token order (the order the harness reads them and the
+    order the marshaller attaches them): True live, False taken"""
+    try:
+        trees = [wg.parse_tokens(op.split(" "), 2)[0]] if op.startswith("BPUSHVI ") else _values_of(op)
+    except Exception:                              # noqa: BLE001 - not a value line this check can read
+        return []
+    out = []
+    for t in trees or []:
+        wg.map_leaves(t, lambda tag, p: (out.append(p == "0") if tag == "h" else None, p)[1])
+    return out
+
+
+def _fd_payloads(val):
+    toks = val.split()
+    out = []
+    pos = 0
+    try:
+        while pos < len(toks):
+            tree, pos = wg.parse_tokens(toks, pos)
+            wg.map_leaves(tree, lambda tag, p: (out.append(p) if tag == "h" else None, p)[1])
+    except Exception:                              # noqa: BLE001
+        return []
+    return out
 
 
 def _fdnorm(val):
@@ -1307,6 +1490,7 @@ def run(ctx):
     ctx.extra["types"] = {"catalogue": len(cat), "mix": len(mix)}
     n_generic, n_decode, n_long, n_tree = (30000, 35000, 6000, 9000) if thorough else (6000, 7000, 1200, 1800)
     n_offset = 12000 if thorough else 2500
+    n_fds = 10000 if thorough else 2000
     ctx.rule = ("case = one history on one real body/parser, run line by line against the extracted model. quick: %d generic (BNEW, <= 12 builder "
                 "operations: typed push, push_param2..5 with one or with different types, push_params, push_variant, push_old_param(s), reset; "
                 "30%% with a failing element at a random inner position; near-miss signatures; parser walk with matching, mismatching, over-long "
@@ -1315,11 +1499,19 @@ def run(ctx):
                 "get2..5; retry / get_param / right type after every failure) + %d long (signature grown to 253..258 and beyond 255, then "
                 "failing pushes of every kind, reset) + %d badtree (push_old_param(s) with empty structs at any depth, mismatching variants, "
                 "arrays/maps with other declared types) + %d offset (the body re-made at buf_offset > 0 by from_parts or by the receive path "
-                "marshal + unmarshal_next_message, then failing and succeeding pushes, reset, walk) + corpus/C15; thorough: x5. Parsers are made over a copy of the body at the same buf_offset (45%% of the decode histories re-home "
+                "marshal + unmarshal_next_message, then failing and succeeding pushes, reset, walk) + %d fds (values with descriptor leaves - h, "
+                "(hs), ah, a(hy), (hsh), v[h], a{sh}, the &dyn AsRawFd flavour - pushed singly and through push_param2..5 / push_params / "
+                "push_old_param(s) / push_variant; 34%% of the operations are multi-pushes in which a live descriptor is attached before a later "
+                "element fails (taken descriptor, bad string / path / signature) while earlier values' descriptors are attached; reset, "
+                "re-homing, walk) + corpus/C15; thorough: x5. Descriptor identity: every descriptor leaf is a descriptor on a memfd of its own, "
+                "tagged by its number among the history's descriptor leaves; after every builder operation the tags of get_fds() (found through "
+                "fstat) are compared with the list the CHECK tracks from the results (the model's body has a count only): ok appends the tags "
+                "of the call's live descriptor leaves in order, err keeps the list, reset empties it, re-homing keeps it; a decoded descriptor "
+                "(printed as its tag; the model prints its index i) must be the i-th of that list. Parsers are made over a copy of the body at the same buf_offset (45%% of the decode histories re-home "
                 "the body first). Compared after every operation: result, signature, "
-                "bytes, descriptor count, validate() (builder); result, value tokens, next signature, signatures left, buf_idx, sig_idx (parser). "
+                "bytes, descriptor count, descriptor identities, validate() (builder); result, value tokens, next signature, signatures left, buf_idx, sig_idx (parser). "
                 "non-trivial = at least one failing operation or a reset; distinct = distinct histories"
-                % (n_generic, n_decode, n_long, n_tree, n_offset))
+                % (n_generic, n_decode, n_long, n_tree, n_offset, n_fds))
     # informational, never a verdict (see ALIGNED_OFFSET_BEYOND_BUFFER): an aligned offset strictly beyond the buffer
     probe = ["BNEW le", "BPUSHN y 8 y 1 y 1 y 1 y 1 y 1 y 1 y 1 y 1", "BBEYOND 8 0", "BPUSH y y 2"]
     _, pout, _ = vlib.run_lines(exe, [], probe)
@@ -1346,13 +1538,19 @@ def run(ctx):
     for _ in range(n_offset):
         histories.append(g.offset())
         kinds.append("offset")
+    for _ in range(n_fds):
+        h, shapes = g.fds()
+        histories.append(h)
+        kinds.append("fds")
+        for x in set(shapes):
+            ctx.count("fds-history-with:" + x)
     for _ in range(n_tree):
         h, tk = g.badtrees()
         histories.append(h)
         kinds.append("badtree")
         for x in tk:
             ctx.count("badtree:" + x)
-    runnable = [with_cursor(strip_meta(h), validate_every=(kind in ("offset", "corpus", "long"))) for h, kind in zip(histories, kinds)]
+    runnable = [with_cursor(strip_meta(h), validate_every=(kind in ("offset", "corpus", "long", "fds"))) for h, kind in zip(histories, kinds)]
     ok, impl, err = run_histories(exe, runnable, vlib.NPROC)
     if not ok:
         ctx.tie_broken("c15 harness crashed", err)
